@@ -2480,6 +2480,33 @@ int32 matrixValidateCerts(psPool_t *pool, psX509Cert_t *subjectCerts,
     Subject certs is the leaf first chain of certs from the peer
     Issuer certs is a flat list of trusted CAs loaded by LoadKeys
  */
+/* The first trust anchor from 'candidates' on that authenticates sc without
+   any reservation, or NULL. Leaves sc's verdict fields for the caller to
+   restore. */
+static psX509Cert_t *laterAnchorThatPasses(psPool_t *pool, psX509Cert_t *sc,
+    psX509Cert_t *candidates, uint32 failFlagsBefore, void *hwCtx,
+    void *poolUserPtr)
+{
+    psX509Cert_t *ic, *found = NULL;
+
+    for (ic = candidates; ic != NULL; ic = ic->next)
+    {
+        if (ic->parseStatus != PS_X509_PARSE_SUCCESS)
+        {
+            continue;
+        }
+        sc->authStatus = PS_FALSE;
+        sc->authFailFlags = failFlagsBefore;
+        if (psX509AuthenticateCert(pool, sc, ic, &found, hwCtx,
+                poolUserPtr) == PS_SUCCESS &&
+            sc->authStatus == PS_CERT_AUTH_PASS)
+        {
+            return ic;
+        }
+    }
+    return NULL;
+}
+
 int32 matrixValidateCertsExt(psPool_t *pool, psX509Cert_t *subjectCerts,
     psX509Cert_t *issuerCerts, char *expectedName,
     psX509Cert_t **foundIssuer, void *hwCtx,
@@ -2630,36 +2657,22 @@ int32 matrixValidateCertsExt(psPool_t *pool, psX509Cert_t *subjectCerts,
                 /* This anchor has the issuer's name and key but may not
                    sign (no keyCertSign, key id mismatch, ...). The verdict
                    must not depend on the order of the CA list: if a later
-                   anchor authenticates the certificate, that one counts. */
-                psX509Cert_t *later, *laterIssuer = NULL;
+                   anchor authenticates the certificate, go on with that
+                   one. */
+                psX509Cert_t *later;
                 int32 failStatus = sc->authStatus;
                 uint32 failFlags = sc->authFailFlags;
 
-                for (later = ic->next; later != NULL; later = later->next)
-                {
-                    if (later->parseStatus != PS_X509_PARSE_SUCCESS)
-                    {
-                        continue;
-                    }
-                    sc->authStatus = PS_FALSE;
-                    sc->authFailFlags = savedFailFlags;
-                    if (psX509AuthenticateCert(pool, sc, later, &laterIssuer,
-                            hwCtx, poolUserPtr) == PS_SUCCESS &&
-                        sc->authStatus == PS_CERT_AUTH_PASS)
-                    {
-                        break;
-                    }
-                }
+                later = laterAnchorThatPasses(pool, sc, ic->next,
+                        savedFailFlags, hwCtx, poolUserPtr);
                 if (later != NULL)
                 {
+                    sc->authFailFlags = savedFailFlags;
                     ic = later;
-                    *foundIssuer = laterIssuer;
+                    continue;
                 }
-                else
-                {
-                    sc->authStatus = failStatus;
-                    sc->authFailFlags = failFlags;
-                }
+                sc->authStatus = failStatus;
+                sc->authFailFlags = failFlags;
             }
             rc = checkPathLenConstraint(ic, sc, pathLen);
             if (rc < 0)
